@@ -204,6 +204,185 @@ let do_prof id ins outs =
      | _ -> verdict "prof" id "diff" "malformed-line" "")
   | _ -> verdict "prof" id "diff" "malformed-line" ""
 
+(* ---- environment functions of package net, re-implemented as glue ---- *)
+(* net.IP.String on a normalised byte list (None -> "<nil>") *)
+let go_ip_string (o : z list option) : z list =
+  let of_str s = List.init (String.length s) (fun i -> bytes_tab.(Char.code s.[i])) in
+  match o with
+  | None -> of_str "<nil>"
+  | Some ip ->
+    let b = List.map int_of_z ip in
+    let dotted l = String.concat "." (List.map string_of_int l) in
+    (match to4 ip with
+     | Some v4 -> of_str (dotted (List.map int_of_z v4))
+     | None ->
+       if List.length b <> 16 then of_str "?" else begin
+         let a = Array.of_list b in
+         let g = Array.init 8 (fun i -> a.(2*i) * 256 + a.(2*i+1)) in
+         (* longest run of zero groups, length >= 2, first wins *)
+         let e0 = ref (-1) and e1 = ref (-1) in
+         let i = ref 0 in
+         while !i < 8 do
+           let j = ref !i in
+           while !j < 8 && g.(!j) = 0 do incr j done;
+           if !j > !i && !j - !i > !e1 - !e0 then begin e0 := !i; e1 := !j end;
+           if !j > !i then i := !j else incr i
+         done;
+         if !e1 - !e0 <= 1 then begin e0 := -1; e1 := -1 end;
+         let buf = Buffer.create 40 in
+         let i = ref 0 in
+         while !i < 8 do
+           if !i = !e0 then begin Buffer.add_string buf "::"; i := !e1 end
+           else begin
+             if !i > 0 && !i <> !e1 then Buffer.add_char buf ':'
+             else if !i > 0 && !i = !e1 then ();
+             Buffer.add_string buf (Printf.sprintf "%x" g.(!i)); incr i
+           end
+         done;
+         of_str (Buffer.contents buf)
+       end)
+
+(* ---- engine flow ----
+   flow <id> <hostsfile> <ipmap> <bogus> <local> <disc> <dtok> <payload> <upmsg> <uperr>
+        => <calls> <n> <err> <rcode> <answers> <md5> *)
+let do_flow id ins outs =
+  match ins, outs with
+  | [file; ipmap; bogus; local_; disc_; dtok; payload; upmsg; uperr], [calls; n; err; rcode; answers; sum] ->
+    let strtok s = bytes_of_token s in
+    let entries = if ipmap = "" then [] else List.map (fun e -> match String.split_on_char ':' e with
+        | [t; c; b] -> (strtok t, strtok c, strtok b) | _ -> failwith "ipmap") (String.split_on_char ';' ipmap) in
+    let canon tok = (match List.find_opt (fun (t, _, _) -> t = tok) entries with
+        | Some (_, c, _) -> if c = [] then None else Some c | None -> None) in
+    let ip_bytes cs = (match List.find_opt (fun (_, c, _) -> c = cs) entries with
+        | Some (_, _, b) -> if b = [] then None else Some b | None -> None) in
+    let tbl = read_hosts canon (strtok file) in
+    let hsrc = { src_host = hosts_lookup_host tbl; src_addr = hosts_lookup_addr tbl } in
+    let dsrc =
+      if disc_ = "0" then None
+      else if dtok = "-" then Some { src_host = (fun _ -> []); src_addr = (fun _ -> []) }
+      else if dtok.[0] = 'A' then
+        let nm = strtok (String.sub dtok 2 (String.length dtok - 2)) in
+        Some { src_host = (fun _ -> []); src_addr = (fun a -> if a = go_ip_string None then [] else [nm]) }
+      else (match String.split_on_char ':' dtok with
+          | [_; nm; addrs] -> let nmb = strtok nm and al = List.map strtok (String.split_on_char ',' addrs) in
+            Some { src_host = (fun x -> if x = nmb then al else []); src_addr = (fun _ -> []) }
+          | _ -> None) in
+    let ip_bytes2 cs = (match ip_bytes cs with Some b -> Some b | None ->
+        (* discovery script addresses *)
+        let s = string_of_bytes cs in
+        if s = "10.77.0.1" then Some (List.map z_of_int [10;77;0;1])
+        else if s = "fd77::1" then Some (List.map z_of_int [0xfd;0x77;0;0;0;0;0;0;0;0;0;0;0;0;0;1]) else None) in
+    let cfg = { bogus_priv = (bogus = "1"); local = (if local_ = "1" then Some hsrc else None); disc = dsrc } in
+    (match parse (strtok payload) with
+     | Ok (q, _) ->
+       let up = URes (strtok upmsg, uperr = "1") in
+       let (res, mcalls) = proxy_resolve go_ip_string ip_bytes2 cfg q up in
+       let fmt_ans l = if l = [] then "-" else String.concat "," (List.map (fun (t, rd) ->
+           Printf.sprintf "%d:0:%s" (int_of_z t) (match rd with [] -> "-" | _ -> hex_of_string (string_of_bytes rd))) l) in
+       let (tag, expect) = (match res with
+         | PLocal a -> ("local", Printf.sprintf "%d ok 0 %s" (int_of_z mcalls) (fmt_ans a))
+         | PDisc a -> ("disc", Printf.sprintf "%d ok 0 %s" (int_of_z mcalls) (fmt_ans a))
+         | PNX -> ("nx", Printf.sprintf "%d ok 3 -" (int_of_z mcalls))
+         | PUp (m, e) -> ("up", Printf.sprintf "%d %s %d %s" (int_of_z mcalls) (if e then "err" else "ok") (List.length m)
+                           (if m = [] then "-" else Digest.to_hex (Digest.string (string_of_bytes m))))) in
+       let got = (match res with
+         | PUp _ -> Printf.sprintf "%s %s %s %s" calls (if err = "1" then "err" else "ok") (if int_of_string n < 0 then "0" else n) sum
+         | _ -> Printf.sprintf "%s %s %s %s" calls (if err = "1" then "err" else "ok") rcode answers) in
+       (* spec: listed / private => no upstream call *)
+       let addr_listed = (match ptr_ip q.q_name with
+           | Some ip -> hosts_lookup_addr tbl (go_ip_string (Some ip)) <> [] | None -> false) in
+       let sp = c12_ok (local_ = "1") (bogus = "1") tbl addr_listed q (z_of_int (int_of_string calls)) in
+       if not sp then verdict "flow" id "spec:C12" tag (Printf.sprintf "impl=[%s] model=[%s]" got expect)
+       else if got = expect then verdict "flow" id "ok" tag ""
+       else verdict "flow" id "diff" tag (Printf.sprintf "impl=[%s] model=[%s]" got expect)
+     | _ -> verdict "flow" id "diff" "model-parse" "")
+  | _ -> verdict "flow" id "diff" "malformed-line" ""
+
+(* ---- engine discovery (uniq / lease / hosts / clist) ---- *)
+let toklist s = if s = "-" then [] else List.map bytes_of_token (String.split_on_char ',' s)
+let enclist (l : z list list) = if l = [] then "-" else String.concat "," (List.map (fun b -> match b with [] -> "-" | _ -> hex_of_string (string_of_bytes b)) l)
+
+let do_uniq id ins outs =
+  match ins, outs with
+  | [adds], [res] ->
+    let al = toklist adds in
+    let model = enclist (List.fold_left append_uniq [] al) in
+    let spec = enclist (List.fold_left (fun acc x -> insert_sorted x acc) [] al) in
+    let tag = Printf.sprintf "n%d" (List.length al) in
+    if res <> spec then verdict "uniq" id "spec:C18" tag (Printf.sprintf "impl=%s spec=%s model=%s" res spec model)
+    else if res <> model then verdict "uniq" id "diff" tag (Printf.sprintf "impl=%s model=%s" res model)
+    else verdict "uniq" id "ok" tag ""
+  | _ -> verdict "uniq" id "diff" "malformed-line" ""
+
+let do_lease id ins outs =
+  match ins, outs with
+  | [format; content; kind; key], [res] ->
+    let c = bytes_of_token content and k = bytes_of_token key in
+    let t = if format = "dnsmasq" then read_dnsmasq c else read_dhcpd c in
+    let l = (match kind with "host" -> lease_lookup_host t k | "addr" -> lease_lookup_addr t k | _ -> lease_lookup_mac t k) in
+    let model = enclist l in
+    let tag = format ^ "/" ^ kind ^ (if l = [] then "/miss" else if List.length l > 1 then "/multi" else "/hit") in
+    if res = model then verdict "lease" id "ok" tag "" else verdict "lease" id "diff" tag (Printf.sprintf "impl=%s model=%s" res model)
+  | _ -> verdict "lease" id "diff" "malformed-line" ""
+
+let do_hosts id ins outs =
+  match ins, outs with
+  | [content; ipmap; kind; key], [res] ->
+    let entries = if ipmap = "" then [] else List.map (fun e -> match String.split_on_char ':' e with
+        | [t; c] -> (bytes_of_token t, bytes_of_token c) | _ -> failwith "ipmap") (String.split_on_char ';' ipmap) in
+    let canon tok = (match List.assoc_opt tok entries with Some [] -> None | Some c -> Some c | None -> None) in
+    let t = read_hosts canon (bytes_of_token content) in
+    let k = bytes_of_token key in
+    let l = if kind = "host" then hosts_lookup_host t k else hosts_lookup_addr t k in
+    let model = enclist l in
+    let tag = "hosts/" ^ kind ^ (if l = [] then "/miss" else if List.length l > 1 then "/multi" else "/hit") in
+    if res = model then verdict "hosts" id "ok" tag "" else verdict "hosts" id "diff" tag (Printf.sprintf "impl=%s model=%s" res model)
+  | _ -> verdict "hosts" id "diff" "malformed-line" ""
+
+let do_clist id ins outs =
+  match ins, outs with
+  | [b], [res] ->
+    let model = (match read_client_list (bytes_of_token b) with
+      | None -> "err"
+      | Some m ->
+        let m = List.sort (fun (a, _) (b, _) -> compare (string_of_bytes a) (string_of_bytes b)) m in
+        if m = [] then "empty" else
+        String.concat ";" (List.map (fun (k, v) -> (match k with [] -> "-" | _ -> hex_of_string (string_of_bytes k)) ^ "=" ^ enclist v) m)) in
+    let tag = if model = "err" then "err" else if model = "empty" then "empty" else "ok" in
+    if res = model then verdict "clist" id "ok" tag "" else verdict "clist" id "diff" tag (Printf.sprintf "impl=%s model=%s" res model)
+  | _ -> verdict "clist" id "diff" "malformed-line" ""
+
+(* ---- engine mdns ----
+   mdns <id> <cap> <addr=name;...> => <nnames> <names dump enc> <addrs dump enc> *)
+let do_mdns id ins outs =
+  match ins, outs with
+  | [cap; ops], [nn; dn; da] ->
+    let capn = int_of_string cap in
+    let rec nat_of_int n = if n = 0 then O else S (nat_of_int (n-1)) in
+    let capnat = nat_of_int capn in
+    let opl = List.map (fun o -> match String.split_on_char '=' o with
+        | [a; n] -> (bytes_of_token a, bytes_of_token n) | _ -> failwith "mdns op") (String.split_on_char ';' ops) in
+    let s = List.fold_left (fun s (a, n) -> announce capnat s a n) mdns0 opl in
+    let dump (m : (z list * mentry) list) =
+      let l = List.sort (fun (a, _) (b, _) -> compare (string_of_bytes a) (string_of_bytes b)) m in
+      if l = [] then "empty" else
+      String.concat ";" (List.map (fun (k, e) -> (match k with [] -> "-" | _ -> hex_of_string (string_of_bytes k)) ^ "=" ^ enclist e.me_vals) l) in
+    let mn = dump s.md_names and ma = dump s.md_addrs in
+    let mcount = List.length s.md_names in
+    let tag = if List.length opl > capn then "overflow" else "small" in
+    (* the implementation's own dump as a model state, to evaluate the spec on it *)
+    let parse_dump d = if d = "empty" then [] else
+        List.map (fun kv -> match String.split_on_char '=' kv with
+            | [k; v] -> (bytes_of_token k, { me_stamp = Z0; me_vals = toklist v }) | _ -> failwith "dump") (String.split_on_char ';' d) in
+    let impl_state = { md_names = parse_dump dn; md_addrs = parse_dump da; md_clock = Z0 } in
+    let short x = if String.length x > 200 then String.sub x 0 200 ^ "..." else x in
+    if int_of_string nn > capn then verdict "mdns" id "spec:C18" tag (Printf.sprintf "names=%s cap=%d" nn capn)
+    else if not (views_agree impl_state) then
+      verdict "mdns" id "spec:C18" tag "name->address and address->name views of the implementation disagree"
+    else if mn = dn && ma = da then verdict "mdns" id "ok" tag ""
+    else verdict "mdns" id "diff" tag (Printf.sprintf "names impl(%s) model(%d) equal=%b; addrs equal=%b; impl addrs=%s model addrs=%s" nn mcount (mn = dn) (ma = da) (short da) (short ma))
+  | _ -> verdict "mdns" id "diff" "malformed-line" ""
+
 let () =
   try
     while true do
@@ -212,6 +391,12 @@ let () =
       match toks with
       | "reply" :: id :: rest -> let (i, o) = split_arrow rest in do_reply id i o
       | "query" :: id :: rest -> let (i, o) = split_arrow rest in do_query id i o
+      | "uniq" :: id :: rest -> let (i, o) = split_arrow rest in do_uniq id i o
+      | "lease" :: id :: rest -> let (i, o) = split_arrow rest in do_lease id i o
+      | "hosts" :: id :: rest -> let (i, o) = split_arrow rest in do_hosts id i o
+      | "clist" :: id :: rest -> let (i, o) = split_arrow rest in do_clist id i o
+      | "mdns" :: id :: rest -> let (i, o) = split_arrow rest in do_mdns id i o
+      | "flow" :: id :: rest -> let (i, o) = split_arrow rest in do_flow id i o
       | "fwd" :: id :: rest -> let (i, o) = split_arrow rest in do_fwd id i o
       | "prof" :: id :: rest -> let (i, o) = split_arrow rest in do_prof id i o
       | _ -> ()
